@@ -36,7 +36,7 @@ namespace sim {
     X(frame_read_row, "C15", 0) X(frame_read_cell, "C15", 0) X(frame_read_col, "C15", 0) \
     X(abuse_array, "C16", 1) X(abuse_dims, "C16", 1) X(abuse_tag, "C16", 1) X(abuse_none, "C16", 1) \
     X(abuse_frame, "C16", 1) X(abuse_misc, "C16", 1) \
-    X(force_id, "C12", 1) X(mk_graph, "C04", 1) X(abuse_tagging, "C16", 1) X(mk_fitted, "C04", 1) X(abuse_legacy, "C16", 1) X(second_view, "C02", 0) \
+    X(force_id, "C12", 1) X(mk_graph, "C04", 1) X(abuse_tagging, "C16", 1) X(mk_fitted, "C04", 1) X(abuse_legacy, "C16", 1) X(second_view, "C02", 0) X(del_misdirected, "C04", 1) X(replace_member, "C03", 1) \
     X(ro_catalogue, "C09", 0) X(mode_probe, "C09", 0) X(version_cube, "C10", 0) X(xp, "C12", 0)
 
 enum OpKind {
@@ -65,6 +65,7 @@ struct Swarm {
     std::string lane;
     int nops;
     int cache_mode, sieve_mode;
+    int mdc_mode;             // metadata cache knob (optional trailing field of the swarm line; absent = default cache)
     int perturb_pm;           // transparent I/O perturbation per mille
     int file_compression;     // 0 none, 1 deflate default for the file
     int dtype_mask;           // enabled element types (bit per index in the dtype table)
@@ -73,7 +74,7 @@ struct Swarm {
     int64_t t0;               // start time of the simulated clock
     uint64_t entropy;         // entropy seed
     std::vector<int> weights; // per op kind
-    Swarm() : nops(20), cache_mode(0), sieve_mode(0), perturb_pm(0), file_compression(0), dtype_mask(0xfff), big(0), name_pool(6), t0(1600000000), entropy(1) {}
+    Swarm() : nops(20), cache_mode(0), sieve_mode(0), mdc_mode(0), perturb_pm(0), file_compression(0), dtype_mask(0xfff), big(0), name_pool(6), t0(1600000000), entropy(1) {}
 };
 std::string swarm_to_line(const Swarm &s);
 bool swarm_from_line(const std::string &line, Swarm &s);
@@ -138,6 +139,8 @@ struct Kept {                       // a retained handle
     nix::Block block; nix::DataArray array; nix::DataFrame frame; nix::Tag tag; nix::MultiTag mtag;
     nix::Group group; nix::Source source; nix::Section section; nix::Property property; nix::Feature feature;
     nix::Dimension dim; std::shared_ptr<nix::DataView> view; nix::File file;
+    std::vector<nix::Dimension> dims;                          // long-lived array handle: descriptor handles obtained when the array was first looked at
+    std::map<std::string, std::set<std::string> > seen;        // long-lived container handle: ids of members seen through it so far, per member kind
     Kept() : kind(0), session(0), deleted(false) {}
 };
 
@@ -177,6 +180,7 @@ struct World {
     Hash evh;                   // event hash (plan, outcomes, digests, disk events)
     uint64_t getters;
     std::string arg_class;      // set by the op being executed
+    std::string expect_unchanged; // oracle to raise if the call the op made (which designates nothing the addressed container holds) changed the document
     std::string must_succeed;   // oracle to raise if the in-contract call the op is about to make on a writable file throws
     std::set<uint64_t> state_hashes, triples;
     int64_t sim_start;
@@ -236,8 +240,12 @@ struct World {
     int exec_abuse(const Op &op);
     int mk_graph(const Op &op);
     int mk_fitted(const Op &op);
+    int del_misdirected(const Op &op);
+    int del_misdirected_v(const Op &op, int v);
+    int replace_member(const Op &op);
     // deletion bookkeeping (C04)
     std::string del_victim;                  // id of entity about to be deleted (set by delete ops)
+    std::string last_deleted_name;           // name of the entity most recently handed to a delete call
     bool del_result;
     std::vector<Kept> del_handles;           // handles to the victim and its subtree members taken before deletion
     void take_victim_handles(const std::string &id);
